@@ -457,7 +457,7 @@ func verifHosts(l *roundRobinLoadBalancer) []*Host { return l.hosts.Load().([]*H
 // nothing is ever sent on "closed": a receive from it completes only once it has been closed;
 // what is queued for the writer is a sender
 //@   chan closed: false
-//@   chan messages: v != nil
+//@   chan messages open: v != nil
 
 //@ func proxycore.Conn.Close [C14, C17]
 //@   preserves-type proxycore.Cluster, proxycore.ClusterConfig
@@ -488,6 +488,25 @@ func verifHosts(l *roundRobinLoadBalancer) []*Host { return l.hosts.Load().([]*H
 //@   requires c != nil
 //@   before proxycore.Receiver.Closing#* set $rdClosing = $rdClosing + 1; $rdClosedFirst = closed(c.closed)
 //@   ensures closed-then-notified-once: $rdClosing == 1 && $rdClosedFirst
+//@   modifies *
+
+// The writer goroutine: every message it takes from the queue is handed to its Send, exactly once,
+// before anything else is taken (C01 / C14: a queued reply or event frame is written, and written once).
+//@ iface proxycore.Sender.Send
+//@   modifies *
+
+//@ loop proxycore.Conn.write #1
+//@   invariant $wrTaken == $wrSent
+//@ loop proxycore.Conn.write #2
+//@   invariant $wrTaken == $wrSent
+
+//@ func proxycore.Conn.write [C01, C14, C17]
+//@   local $wrTaken int = 0
+//@   local $wrSent int = 0
+//@   requires c != nil
+//@   after select#* set $wrTaken = $wrTaken + ite(selidx == 0, 1, 0)
+//@   before proxycore.Sender.Send#* set $wrSent = $wrSent + 1
+//@   ensures every-taken-message-is-written-once: $wrTaken == $wrSent
 //@   modifies *
 
 //@ func proxycore.Conn.Err [C18, C01]
